@@ -17,20 +17,23 @@ void harness(void)
     long r0 = xv_sr_calls, h0 = xv_hs_calls, o0 = xv_rx_off;
     int rv = btls_receive(s, buf, capacity);
 #if defined(BT_HUGE)
-    if (xv_sr_calls == r0 + 1 && xv_sr_num < 0 && rv == -1 && xv_errno == EPROTO) XV_CANARY("capacity 2^31..: SSL_read entered with a NEGATIVE num, connection killed with EPROTO");
-    if (xv_sr_calls == r0 + 1 && xv_sr_num == 0 && rv == 0 && !xv_ssl_close_seen) XV_CANARY("capacity 2^32: SSL_read entered with num 0, connection declared closed");
+    if (xv_sr_calls == r0 + 1 && xv_sr_num == 2147483647 && rv >= 1) XV_CANARY("capacity above INT_MAX: SSL_read entered with num INT_MAX, data delivered");
 #elif defined(BT_ZERO)
-    if (xv_sr_calls == r0 + 1 && xv_sr_num == 0 && rv == 0 && !xv_ssl_close_seen) XV_CANARY("capacity 0: SSL_read entered with num 0, healthy connection declared closed");
+    if (xv_sr_calls == r0 && rv == 0 && xv_hs_calls == h0 + 1) XV_CANARY("capacity 0 on a ready connection: 0 without entering SSL_read");
 #else
     if (rv >= 1 && (size_t)rv == capacity && xv_hs_calls == h0) XV_CANARY("ready: buffer filled");
     if (rv >= 1 && (size_t)rv < capacity) XV_CANARY("ready: fewer bytes than capacity");
     if (rv >= 1 && xv_hs_calls == h0 + 1) XV_CANARY("handshake finished in this call, then data delivered");
 #endif
     if (rv == -1 && xv_errno == EAGAIN && xv_hs_calls == h0 + 1 && xv_sr_calls == r0) XV_CANARY("still handshaking: EAGAIN, no SSL_read");
+#ifndef BT_ZERO
     if (rv == -1 && xv_errno == EAGAIN && xv_sr_calls == r0 + 1 && xv_ssl_err == SSL_ERROR_WANT_READ && xv_rx_off == o0) XV_CANARY("SSL_read wants read: EAGAIN");
+#endif
     if (rv == 0 && xv_sr_calls == r0 && xv_hs_calls == h0) XV_CANARY("closed before: 0");
+#ifndef BT_ZERO
     if (rv == 0 && xv_sr_calls == r0 + 1 && xv_ssl_err == SSL_ERROR_ZERO_RETURN) XV_CANARY("close_notify: 0");
     if (rv == -1 && xv_errno == EPROTO && xv_sr_calls == r0 + 1 && xv_ssl_err == SSL_ERROR_SSL) XV_CANARY("protocol error in SSL_read: EPROTO");
+#endif
     if (rv == -1 && xv_errno == ETIMEDOUT && xv_sr_calls == r0 && xv_hs_calls == h0) XV_CANARY("bad before: stored errno");
     if (rv == -1 && xv_errno == EPROTO && xv_hs_calls == h0 + 1 && xv_hs_ret == 1 && xv_sr_calls == r0) XV_CANARY("policy not met after handshake: EPROTO, no SSL_read");
 }
